@@ -1011,11 +1011,45 @@ pub fn pattern_strategy(o: &GenOpts) -> BoxedStrategy<Vec<Stmt>> {
             s.push(Stmt::Add(rel(0), rel(1)));
             s
         });
+    // --- products first, folded afterwards: m_i = a_i * b_i (all of them), then
+    //     o_1 = k + m_1, o_2 = o_1 + m_2, ...: every fusion after the first is legal only because
+    //     the previous one is fused too (its addend is the previous fusion's output)
+    let foldafter = (proptest::collection::vec((val_strategy(), val_strategy()), 2..=6), val_strategy(), any::<bool>())
+        .prop_map(move |(pairs, k, flip)| {
+            let n = pairs.len();
+            let mut s: Vec<Stmt> = vec![];
+            let mut pushed = 0u16;
+            // node `i` (0-based within the pattern) is `rel(pushed - 1 - i)` once `pushed` nodes exist
+            let at = |i: u16, pushed: u16| rel(pushed - 1 - i);
+            for (va, vb) in &pairs {
+                s.push(Stmt::Public(va.clone()));
+                s.push(Stmt::Public(vb.clone()));
+                pushed += 2;
+            }
+            for i in 0..n as u16 {
+                s.push(Stmt::Mul(at(2 * i, pushed), at(2 * i + 1, pushed)));
+                pushed += 1;
+            }
+            s.push(Stmt::Const(k.clone()));
+            pushed += 1;
+            let mut acc = pushed - 1; // node index of the running sum
+            for i in 0..n as u16 {
+                let m = 2 * n as u16 + i;
+                if flip {
+                    s.push(Stmt::Add(at(m, pushed), at(acc, pushed)));
+                } else {
+                    s.push(Stmt::Add(at(acc, pushed), at(m, pushed)));
+                }
+                pushed += 1;
+                acc = pushed - 1;
+            }
+            s
+        });
     if o.allow_hints && o.allow_ext {
-        prop_oneof![4 => dedup, 4 => fusion, 1 => heal, 2 => selprov].boxed()
+        prop_oneof![4 => dedup, 4 => fusion, 1 => heal, 2 => selprov, 2 => foldafter].boxed()
     } else {
         // the `heal` pattern recomposes coefficients; generators without ext statements skip it
-        prop_oneof![dedup, fusion].boxed()
+        prop_oneof![4 => dedup, 4 => fusion, 2 => foldafter].boxed()
     }
 }
 
